@@ -43,15 +43,19 @@ def run_check(sv, srepo, pid, tier, seed):
     lines = r.stdout.splitlines()
     vio = [l for l in lines if l.startswith('VIOLATION')]
     kinds = []
+    details = []
     for l in vio:
         m = re.search(r'replay=(\S+)', l)
         if m and os.path.exists(m.group(1)):
             try:
-                kinds.append(str(json.load(open(m.group(1))).get('kind', '?')))
+                rp = json.load(open(m.group(1)))
+                kinds.append(str(rp.get('kind', '?')))
+                if len(details) < 2:
+                    details.append(('%s: %s' % (rp.get('kind', '?'), str(rp.get('detail') or rp.get('broken_theorems') or ''))).replace('\n', ' ')[:400])
             except (OSError, ValueError):
                 kinds.append('?')
     summ = [l for l in lines if re.match(r'^C\d\d (quick|thorough) seed', l)]
-    return {'rc': r.returncode, 'violations': len(vio), 'first': [l[:300] for l in vio[:3]], 'kinds': sorted(set(kinds)),
+    return {'rc': r.returncode, 'violations': len(vio), 'first': [l[:300] for l in vio[:3]], 'kinds': sorted(set(kinds)), 'details': details,
             'nofail': sum('no-failing-input-found' in l for l in vio), 'summary': summ[-1] if summ else (lines[-1][:300] if lines else ''),
             'secs': int(time.time() - t0)}
 
